@@ -343,6 +343,7 @@ def shards(tier, seed):
         out.append({'name': f'rand{j}', 'what': 'rand', 'count': lim['nrand'] // nr,
                     'maxdepth': lim['maxdepth']})
     out.append({'name': 'sched', 'what': 'sched', 'runs': 30 if tier == 'quick' else 600})
+    out.append({'name': 'stores', 'what': 'stores'})
     return out
 
 
@@ -394,6 +395,8 @@ def run_sched(spec, res):
 def run_shard(spec, res):
     if spec['what'] == 'sched':
         return run_sched(spec, res)
+    if spec['what'] == 'stores':
+        return run_stores(spec, res)
     ld = import_lazy_dataset()
     if spec['what'] == 'exh':
         cnt = 0
@@ -414,6 +417,64 @@ def run_shard(spec, res):
                 'what_is_compared': 'per-stage (stage, example id) call sequences after every next()'})
 
 
+def run_stores(spec, res):
+    """Stages that keep what they computed (memory cache, disk cache, eager
+    cache, new(ds)): whatever the examples are - None, falsy, empty, ordinary -
+    the function below runs once per example, however often and in whichever
+    way (iteration, index of either sign, key, items, slice, copy) the stage is
+    read afterwards."""
+    import collections
+    ld = import_lazy_dataset()
+    values = {'ordinary': lambda i: {'id': i}, 'none': lambda i: None if i % 2 == 0 else i,
+              'falsy': lambda i: (0, '', [], {}, False, 0.0, b'')[i % 7],
+              'all-none': lambda i: None}
+    stores = {'cache': lambda d: d.cache(), 'diskcache': lambda d: d.diskcache(),
+              'eager-cache': lambda d: d.cache(lazy=False), 'new(ds)': lambda d: ld.new(d),
+              'cache.copy': lambda d: d.cache().copy(),
+              'diskcache.copy': lambda d: d.diskcache().copy(),
+              'cache-of-cache': lambda d: d.cache().map(lambda x: x).cache()}
+    reads = [
+        ('iter', lambda d, n: list(d)), ('iter-again', lambda d, n: list(d)),
+        ('index', lambda d, n: [d[i] for i in range(n)]),
+        ('negative-index', lambda d, n: [d[i - n] for i in range(n)]),
+        ('key', lambda d, n: [d[f'k{i}'] for i in range(n)]),
+        ('items', lambda d, n: list(d.items())), ('slice', lambda d, n: list(d[::-1])),
+        ('copy', lambda d, n: list(d.copy())), ('prefetch', lambda d, n: list(d.prefetch(2, 2, 't'))),
+    ]
+    for n in (1, 4, 9):
+        for vn, val in values.items():
+            for sn, store in stores.items():
+                for first in range(len(reads)):
+                    case = {'stores': True, 'n': n, 'values': vn, 'store': sn,
+                            'first_read': reads[first][0]}
+                    calls = collections.Counter()
+
+                    def fn(i, val=val, calls=calls):
+                        calls[i] += 1
+                        return val(i)
+                    res.case(('stores', n, vn, sn, first), True)
+                    try:
+                        d = store(ld.new({f'k{i}': i for i in range(n)}).map(fn))
+                        order = reads[first:] + reads[:first]
+                        for rn, read in order:
+                            try:
+                                read(d, n)
+                            except (NotImplementedError, TypeError, ValueError,
+                                    AssertionError, KeyError, IndexError):
+                                res.count('store_reads_not_offered')
+                        del d
+                    except BaseException as e:
+                        res.violation('construction-raised', case, exc_sig(e),
+                                      sig={'last_op': sn, 'stores': True})
+                        continue
+                    res.count('store_histories_checked')
+                    twice = {i: c for i, c in calls.items() if c > 1}
+                    if twice or sorted(calls) != list(range(n)):
+                        res.violation('function-applied-twice', case,
+                                      {'calls_per_example': dict(calls)},
+                                      sig={'last_op': sn, 'stores': True, 'values': vn})
+
+
 def finalize(res, tier):
     for k in ('constructions_checked', 'prefix_comparisons', 'index_comparisons',
               'key_comparisons'):
@@ -423,6 +484,8 @@ def finalize(res, tier):
 
 
 def replay(case, res):
+    if case.get('stores'):
+        return run_stores({}, res)
     if 'scenario' in case:
         from .. import conc, detsched as D
         conc.env()
